@@ -145,8 +145,8 @@ def run(R):
         R.oblige("correspondence: model = real msg server / EndBlocker / keeper-level LP functions on %d histories (%d steps)" % (total, dist["steps"]),
                  not mism, "first mismatching histories: " + json.dumps([cases[i] for i in mism[:2]])[:6000])
         var = dist["variant"]
-        R.oblige("probes: the tree has none of the three repaired defects (the full-strength theorems are stated for [fixed v])",
-                 not (var["prefix_iteration"] or var["zero_record_blocks_refund"] or var["creation_bond_unchecked"]), json.dumps(var))
+        R.oblige("probes: the tree has none of the four repaired message-level defects (the full-strength theorems are stated for [fixed v])",
+                 not (var["prefix_iteration"] or var["zero_record_blocks_refund"] or var["creation_bond_unchecked"] or var["negative_creation_bond_accepted"]), json.dumps(var))
         report(R, obs)
         R.samples = [brief(cases[0], min(3, len(cases[0]["steps"]) - 1)), brief(cases[-1], min(3, len(cases[-1]["steps"]) - 1))]
         R.coverage.update({"latent_keeper_level_rounding_exploit_on_real_code": latent(cases), "traces_validated_against_impl": total, "steps_validated": dist["steps"], "input_distribution": dist})
